@@ -101,16 +101,19 @@ class PeerWorld(World):
         steps = 0
         viols = []
         last = None
+        seen = set()
         while self.runnable(proc):
             steps += 1
             if steps > self.params['max_quiesce']:
                 raise HarnessError('endpoint does not become quiescent within %d callbacks' % steps)
             if steps > 6:
-                # a polling idle callback (queue waiting for the session) never goes
-                # quiescent: stop when a callback leaves the state unchanged
+                # polling idle callbacks (the queue waiting for the session; one per bundle queued early) never go
+                # quiescent: stop when the state has been seen before in this run of the loop (nothing can change
+                # any more until something arrives)
                 cur = self.digest()
-                if cur == last:
+                if cur == last or cur in seen:
                     break
+                seen.add(cur)
                 last = cur
             (more, _eff) = self.apply(('run', 'R'))
             viols.extend(more)
